@@ -2,6 +2,7 @@ package wasp
 
 import (
 	"context"
+	"io"
 	"sync"
 	"time"
 
@@ -140,7 +141,7 @@ func (s *setupWorker) setup(ctx context.Context, m transport.Metadata) error {
 	c.SetReadDeadline(
 		time.Now().Add(connectTimeout),
 	)
-	firstPkt, err := s.decoder.Decode(c)
+	firstPkt, err := safeDecode(s.decoder, c)
 	if err != nil {
 		return err
 	}
@@ -253,6 +254,18 @@ func (s *manager) shutdownSession(ctx context.Context, session *sessions.Session
 	}
 }
 
+// safeDecode decodes one packet. The decoder indexes into client-supplied
+// buffers without bounds checks; a malformed packet must end that client's
+// connection, not the process.
+func safeDecode(d *decoder.Sync, r io.Reader) (pkt packet.Packet, err error) {
+	defer func() {
+		if r := recover(); r != nil {
+			pkt, err = nil, ErrProtocolViolation
+		}
+	}()
+	return d.Decode(r)
+}
+
 type timeoutError interface {
 	Timeout() bool
 }
@@ -260,7 +273,7 @@ type timeoutError interface {
 func (s *connectionWorker) processSession(ctx context.Context, session *sessions.Session) bool {
 	c := session.ReadWriter()
 	started := time.Now()
-	pkt, err := s.decoder.Decode(c)
+	pkt, err := safeDecode(s.decoder, c)
 	if err != nil {
 		return false
 	}
